@@ -92,7 +92,11 @@ def get_adjusted_url(url: str, addr: AddressTupleVXType) -> str:
     if not addr[3]:
         return url
 
-    data = urlsplit(url)
+    try:
+        data = urlsplit(url)
+    except ValueError:
+        # Not a splittable URL (e.g., unbalanced IPv6 brackets), nothing to adjust.
+        return url
     assert data.hostname
     try:
         address = ip_address(data.hostname)
